@@ -149,6 +149,43 @@ func checkFraming(p *Prog, r *Report) {
 			lenFn = lenCall.Call.StaticCallee()
 		}
 		okLen := L != nil && lenCall != nil && lenFn != nil && len(lenCall.Call.Args) == 1 && p.origin(lenCall.Call.Args[0]) == rdr && dominates(lenCall, full)
+		// the length read written out in the reader itself (no length function): L is computed from reader.Peek(4) of
+		// the same reader, big-endian uint16 at offset 2, and that peek dominates the full read
+		var inlinePeek *ssa.Call
+		if !okLen && L != nil && lenCall == nil {
+			// L = int(msgLen) with msgLen decoded from peeked[2:], or int(binary.BigEndian.Uint16(peeked[2:]))
+			core := stripChange(L)
+			if cv, ok := core.(*ssa.Convert); ok {
+				core = stripChange(cv.X)
+			}
+			var src ssa.Value // the two bytes the length is read from
+			if d, i := wireVar(p, core); d != nil && i == 0 && isBigEndianArg(d.Call.Args[1]) {
+				if ts := decodeTargets(d); len(ts) == 1 && strings.Contains(ts[0].Type().String(), "uint16") {
+					if nb, ok := stripChange(d.Call.Args[0]).(*ssa.Call); ok && calleeName(&nb.Call) == "bytes.NewBuffer" {
+						src = nb.Call.Args[0]
+					}
+				}
+			}
+			if c2, ok := core.(*ssa.Call); ok && calleeName(&c2.Call) == "(encoding/binary.bigEndian).Uint16" {
+				src = c2.Call.Args[1]
+			}
+			if sl, ok := src.(*ssa.Slice); ok {
+				if lo, ok := constInt(sl.Low); ok && lo == 2 {
+					if ex, ok := sl.X.(*ssa.Extract); ok && ex.Index == 0 {
+						if c, ok := ex.Tuple.(*ssa.Call); ok && calleeName(&c.Call) == "(*bufio.Reader).Peek" && len(c.Call.Args) == 2 {
+							if n4, ok := constInt(c.Call.Args[1]); ok && n4 == 4 && p.origin(c.Call.Args[0]) == rdr && dominates(c, full) {
+								inlinePeek = c
+							}
+						}
+					}
+				}
+			}
+			if inlinePeek != nil {
+				okLen = true
+				lenCall = inlinePeek // the non-consuming length read, for the single-consumer rule below
+				r.OK("R-FRAME.length", fnKey(f)+": message length from the header", p.instrPos(inlinePeek), "Peek(4) (non-consuming), big-endian uint16 at offset 2, read in the reader loop itself", true)
+			}
+		}
 		r.Check(okLen, "R-FRAME.message-bytes", k+": bytes handed to decodePacket", p.instrPos(cs),
 			"a buffer of exactly L bytes, L = length function applied to the same reader",
 			"the buffer handed to decodePacket is not exactly the L bytes of one message (L from the length header of the same reader): stale bytes of an earlier message or bytes of the next one can be decoded", true)
